@@ -58,6 +58,21 @@ def run_all(selector, tier="quick"):
     return reg, results
 
 
+_LEAN_FAMILIES = {"L1-mono-def", "L2-range", "L2'-negcount", "L3-bool-idempotent", "L4-spin-parity", "L5-fold-update", "sq-shape"}
+
+
+def lean_status():
+    """'lean-checked' when the committed stamp lemmas/.checked.json matches the sha256 of lemmas/QvcLemmas.lean
+    (the stamp is written by lemmas/check.sh, which runs `lean` and audits the axioms); re-run by the thorough tier."""
+    import hashlib
+    try:
+        st = json.load(open(os.path.join(VERIF, "lemmas", ".checked.json")))
+        sha = hashlib.sha256(open(os.path.join(VERIF, "lemmas", "QvcLemmas.lean"), "rb").read()).hexdigest()
+        return "lean-checked (Lean 4 + Mathlib, %d theorems, stamp sha matches)" % len(st.get("theorems", [])) if st.get("sha256") == sha else "assumed (stamp does not match lemmas/QvcLemmas.lean)"
+    except Exception:
+        return "assumed (no Lean stamp)"
+
+
 def merge(prop, reg, results):
     lock = load_lock()
     obligations = {}
@@ -87,7 +102,8 @@ def merge(prop, reg, results):
                            "inlined_callees": r["inlined"], "callee_contracts_used": r["used_contracts"]}
         vac += r.get("vacuity", 0)
         for l in r["lemmas"]:
-            lemmas[l] = LEMMAS.get(l, "")
+            lemmas[l] = {"statement": LEMMAS.get(l, ""),
+                         "status": lean_status() if l in _LEAN_FAMILIES else "assumed (mathematics, not proved here)"}
         for o in r["obligations"]:
             base = re.sub(r"#p\d+$", "", o["name"])
             name = "%s/%s[%s]" % (prop, base, tag)
@@ -106,6 +122,10 @@ def merge(prop, reg, results):
                     cur["model"] = o.get("model")
                     cur["smt2"] = o.get("smt2")
                     cur["note"] = o.get("note")
+            if o.get("second_backend"):
+                cur.setdefault("second", []).append(o["second_backend"])
+                if o["second_backend"].endswith(": sat"):
+                    errors.append("back ends disagree on %s: %s" % (name, o["second_backend"]))
             if o.get("canary") is not None:
                 canaries_total += 1
                 canaries_ok += 1 if o["canary"] else 0
@@ -130,16 +150,38 @@ def merge(prop, reg, results):
 
 
 def run_property(prop, tier, seed):
+    if tier == "thorough":
+        os.environ["QVC_CROSSCHECK"] = "1"
     reg, results = run_all(lambda c: prop in c.props, tier)
     if not results:
         return None
-    return merge(prop, reg, results)
+    m = merge(prop, reg, results)
+    if tier == "thorough":
+        agree = sum(1 for o in m["obligations"] for s2 in o.get("second", []) if s2.endswith(": unsat"))
+        other = sum(1 for o in m["obligations"] for s2 in o.get("second", []) if not s2.endswith(": unsat"))
+        m["second_backend"] = {"agree_unsat": agree, "no_answer_or_error": other}
+        # re-run Lean on the lemma library
+        import subprocess
+        try:
+            r = subprocess.run(["bash", os.path.join(VERIF, "lemmas", "check.sh")], capture_output=True, text=True, timeout=1500)
+            m["lean_recheck"] = "ok" if r.returncode == 0 else "FAILED: " + (r.stdout + r.stderr)[-400:]
+        except Exception as e:
+            m["lean_recheck"] = "not run: %s" % e
+    return m
 
 
 def relock():
     from .. import PROPERTIES
     names = set()
+    sigfile = os.path.join(VERIF, "contracts", "loopsigs.json")
+    if os.path.exists(sigfile):
+        os.remove(sigfile)
     reg, results = run_all(lambda c: True, "quick")      # every contract instance verified once
+    sigs = {}
+    for r in results:
+        for qn, d in (r.get("loopsigs") or {}).items():
+            sigs.setdefault(qn, {}).update(d)
+    json.dump(sigs, open(sigfile, "w"), indent=1, sort_keys=True)
     for prop in PROPERTIES:
         sub = [r for r in results if prop in reg[r["qualname"]].props]
         if not sub:
